@@ -121,6 +121,41 @@ pub use write::{
     WriteDestination, WriteMode, WriteParams,
 };
 
+/// Verification hooks: thin wrappers around private functions; no behaviour change.
+#[cfg(feature = "verif-hooks")]
+pub mod verif_hooks {
+    use super::*;
+
+    pub async fn row_offsets_to_row_addresses(
+        dataset: &Dataset,
+        row_indices: &[u64],
+    ) -> Result<Vec<u64>> {
+        super::take::row_offsets_to_row_addresses(dataset, row_indices).await
+    }
+
+    /// `Transaction::build_manifest` with the manifest write configuration spelled out.
+    pub fn build_manifest(
+        transaction: &Transaction,
+        current_manifest: Option<&Manifest>,
+        current_indices: Vec<IndexMetadata>,
+        transaction_file_path: &str,
+        use_stable_row_ids: bool,
+        storage_format: Option<lance_table::format::DataStorageFormat>,
+    ) -> Result<(Manifest, Vec<IndexMetadata>)> {
+        let config = ManifestWriteConfig {
+            use_stable_row_ids,
+            storage_format,
+            ..Default::default()
+        };
+        transaction.build_manifest(
+            current_manifest,
+            current_indices,
+            transaction_file_path,
+            &config,
+        )
+    }
+}
+
 const INDICES_DIR: &str = "_indices";
 
 pub const DATA_DIR: &str = "data";
